@@ -2,7 +2,9 @@
 
 Spec specs/sem2/LineMap.tla: a layout machine writes one XGo file line by line (function items with
 one body statement, then a case function with statement items, then forward-declared helpers;
-ordinary .xgo files and normal .gox class files whose funcs are class methods;
+ordinary .xgo files and normal .gox class files whose funcs are class methods; probe calls inside
+case / comm clause expressions (tagged and tagless switch, select); cl.Config.RelativeBase unset / the
+file's directory / a sibling directory sharing a name prefix / an unrelated directory (file names);
 gaps of 0..2 blank/comment lines, a comment run directly above `func`/`var` being its doc comment)
 and records for every probe call `where(id)` the line the property demands (first line of the
 statement the call belongs to) next to the line the model of today's code predicts (named deviation
@@ -23,7 +25,7 @@ def run(ctx):
         open(cases, "w").write(ctx.replay["case_record"]["line"] + "\n")
     else:
         t = "quick" if ctx.tier == "quick" else "thorough"
-        for part in ("a", "b", "c", "d"):
+        for part in ("a", "b", "c", "d", "e", "f"):
             ctx.tlc("sem2", "LineMap", "LineMap_%s_%s.cfg" % (t, part), cases_path=cases, timeout_s=1500,
                     workers=8, coverage=(ctx.tier == "thorough" and part == "b"))
     h = ctx.build_harness("sem2h")
@@ -33,7 +35,7 @@ def run(ctx):
     if ctx.tier == "thorough" and not ctx.replay:
         # second parser mode (no ParseComments: no doc groups reach the compiler) on the quick grid
         cases2 = os.path.join(ctx.scratch, "cases2.ndjson")
-        for part in ("a", "b", "c", "d"):
+        for part in ("a", "b", "c", "d", "e", "f"):
             ctx.tlc("sem2", "LineMap", "LineMap_quick_%s.cfg" % part, cases_path=cases2, timeout_s=1500, workers=8)
         res2 = ctx.run_harness(h, ["linemap", "nocomments"], cases2, timeout_s=6000)
         ctx.tally(res2, cases_path=cases2, mode="nocomments")
@@ -49,4 +51,7 @@ def run(ctx):
         "deferred calls are probed by an argument evaluated at the defer statement (the deferred call itself "
         "runs at the function's closing brace by Go semantics)",
         "one file per layout inside a multi-file package; probe helpers live in a file that sorts first",
+        "a case / comm clause is a statement of its own: a call in its expression is expected on the clause's line",
+        "file names: the directive's file name, resolved against the Go package directory as the Go tool chain does, "
+        "must be filepath.Rel(RelativeBase, file) (the absolute path when RelativeBase is unset)",
     ]
